@@ -783,3 +783,36 @@ package mocrelay
 //@   requires !tokheld(ss.reqStat) && reqWF(tokval(ss.reqStat)) && !tokheld(ss.okStat) && okWF(tokval(ss.okStat)) && !tokheld(ss.countStat) && cntWF(tokval(ss.countStat))
 //@   ensures !tokheld(ss.reqStat) && reqWF(tokval(ss.reqStat)) && !tokheld(ss.okStat) && okWF(tokval(ss.okStat)) && !tokheld(ss.countStat) && cntWF(tokval(ss.countStat))
 //@   ensures result == msg
+
+// ---------------------------------------------------------------------------------------------
+// C01: event authenticity
+
+//@ func appendNIP01Byte
+//@   serves C01
+//@   pure
+//@   ensures len(result) == len(dst) + nipEscLen(c) && forall(i, 0, len(dst), result[i] == dst[i])
+//@   ensures[C01] nipEscKind(c) == 0 ==> result[len(dst)] == c
+//@   ensures[C01] nipEscKind(c) == 1 ==> (result[len(dst)] == '\\' && result[len(dst)+1] == nipEscLetter(c))
+//@   ensures[C01] nipEscKind(c) == 2 ==> (result[len(dst)] == '\\' && result[len(dst)+1] == 'u' && result[len(dst)+2] == '0' && result[len(dst)+3] == '0' && result[len(dst)+4] == hexDigit(c / 16) && result[len(dst)+5] == hexDigit(c % 16))
+
+//@ func appendNIP01String
+//@   serves C01
+//@   pure
+//@   ensures len(result) >= len(dst) + 2 + len(s) && forall(k, 0, len(dst), result[k] == dst[k])
+//@   ensures result[len(dst)] == '"' && result[len(result)-1] == '"'
+//@   loop 1
+//@     invariant 0 <= i && i <= len(s) && len(dst) >= len(old(dst)) + 1 + i
+//@     invariant forall(k, 0, len(old(dst)), dst[k] == old(dst)[k]) && dst[len(old(dst))] == '"'
+
+//@ func Event.Serialize
+//@   serves C01
+//@   pure
+//@   ensures (result1 == nil) == (ev != nil)
+//@   promises ev != nil ==> result0 == serializeOf(ev)
+
+//@ func Event.Verify
+//@   serves C01
+//@   pure
+//@   ensures[C01] (result0 && result1 == nil) == (ev != nil && authentic(ev))
+//@   ensures[C01] result1 != nil ==> !result0
+//@   ensures[C01] (ev != nil && hexOK(ev.ID) && !idMatches(ev)) ==> (!result0 && result1 == nil)
